@@ -41,6 +41,20 @@ MAX_KEYS_PER_SUBCHECK = 4  # collect-then-shrink: distinct root causes enumerate
 SHRINK_BUDGET_S = {"quick": 45.0, "thorough": 240.0}
 
 
+_POISON = [0]
+
+
+def poison_heap():
+    """Fill the allocator's free lists with recognisable garbage (blocks of every small size allocated, filled, freed) so that
+    a buffer the code under test obtains with np.empty and does not fully write shows garbage instead of the zeros a fresh
+    process tends to hand out. Buffers from np.zeros or fully written ones are unaffected. Called before every case."""
+    import numpy as _np
+    _POISON[0] += 1
+    v = (1.0e300, -7.0e250, 3.0e-300, 1.152921504606847e18)[_POISON[0] % 4]
+    blocks = [_np.full(k, v) for k in range(1, 129) for _ in range(2)]
+    del blocks
+
+
 class Violation(Exception):
     def __init__(self, key, msg):
         super().__init__("%s: %s" % (key, msg))
@@ -248,6 +262,7 @@ class Run:
         """Run the body on one case; returns normally when it holds (or only known findings hit),
         raises Violation otherwise."""
         ctx = self.new_ctx()
+        poison_heap()
         try:
             try:
                 self.sub.body(case, ctx)
